@@ -212,6 +212,19 @@ pub fn gen_doc(r: &mut Rng) -> Doc {
     Doc { bytes, span, nested_info_before, shape: shape.join("+") }
 }
 
+/// Span of the value a depth-first search (document order, descending into dictionary values)
+/// finds first under a key spelled "info" — what the recorded defect hashes.
+pub fn deep_first_info_span(b: &[u8], dict_start: usize) -> Option<(usize, usize)> {
+    let entries = crate::benc::dict_entry_spans(b, dict_start).ok()?;
+    for (k, s, e) in entries {
+        if k == b"info" { return Some((s, e)); }
+        if b.get(s) == Some(&b'd') {
+            if let Some(x) = deep_first_info_span(b, s) { return Some(x); }
+        }
+    }
+    None
+}
+
 pub fn judge(doc: &Doc) -> Result<bool, (String, String)> {
     let want = sha1(&doc.bytes[doc.span.0..doc.span.1]);
     match catch(|| Metainfo::from_bencode(&doc.bytes)) {
@@ -225,7 +238,7 @@ pub fn judge(doc: &Doc) -> Result<bool, (String, String)> {
                     return Err(("C05:raw-finder-span-differs".into(), "find_first(4:info) is not the top-level info span although the hash matched".into()));
                 }
                 Ok(true)
-            } else if doc.nested_info_before {
+            } else if doc.nested_info_before && deep_first_info_span(&doc.bytes, 0).map(|(a, b)| sha1(&doc.bytes[a..b]) == *m.info_hash()).unwrap_or(false) {
                 Err((
                     "C05:nested-info-key-before-top-level-info".into(),
                     "a dictionary-valued key ordered before the top-level info that itself contains a key \"info\" is hashed instead of the top-level info value".into(),
